@@ -6,7 +6,7 @@ import os
 from typing import Any, Optional
 
 from .constfold import Folder, NotConstant
-from .report import AnalysisError, UnprovenScope
+from .report import AnalysisError, Unproven, UnprovenScope
 from .srcmodel import ClassInfo, FuncInfo, Program
 from .terms import Evaluator, Summary, show
 
@@ -67,7 +67,7 @@ class Ctx:
         try:
             return self.fold.fold(term)
         except NotConstant as e:
-            raise AnalysisError(f"expected a foldable constant, got {show(term)[:160]}: {e}")
+            raise Unproven(show(term)[:80], f"a value the rules must evaluate is not a constant any more: {show(term)[:160]}: {e}")
 
     def analysed(self) -> dict:
         return {
